@@ -192,7 +192,10 @@ func c16Contention(c *Ctx) {
 				}
 				out, n, err := g.Result(q, 10)
 				want := fmt.Sprintf("%d", 2*msgsPerServer)
-				if err != nil || n != 1 || !strings.Contains(out, want) {
+				rows := strings.Split(strings.TrimSpace(sgr.ReplaceAllString(out, "")), "\n")
+				cells := strings.Split(rows[len(rows)-1], "|")
+				okRow := len(cells) == 2 && strings.TrimSpace(cells[0]) == want && strings.TrimSpace(cells[1]) == fmt.Sprintf("%f", float64(4*msgsPerServer))
+				if err != nil || n != 1 || !okRow {
 					viol = fmt.Sprintf("after %d AGGREGATE messages (count 1, sum 2 each, same group) the result set holds %d rows: %q (err %v); want one row with count %s", 2*msgsPerServer, n, out, err, want)
 				}
 			})
